@@ -240,6 +240,9 @@ func fnGetSet(ctx *cmdContext, args map[string]any) (output respValue, err error
 	return
 }
 
+// largest product of the two string lengths LCS works on
+const maxLcsCells = 1 << 24
+
 func fnLcs(ctx *cmdContext, args map[string]any) (output respValue, err error) {
 	keyName1 := args["key1"].(string)
 	keyName2 := args["key2"].(string)
@@ -265,6 +268,13 @@ func fnLcs(ctx *cmdContext, args map[string]any) (output respValue, err error) {
 		if vals[i] == nil {
 			vals[i] = &empty
 		}
+	}
+
+	// the search keeps one table cell per pair of positions: refuse what cannot be held,
+	// as redis does for its own table
+	if uint64(len(*vals[0]))*uint64(len(*vals[1])) > maxLcsCells {
+		output.data = respErrorString("ERR Insufficient memory, transient memory for LCS exceeds proto-max-bulk-len")
+		return
 	}
 
 	ls := newLongestSeq(*vals[0], *vals[1])
